@@ -376,19 +376,67 @@ func C25(c *Ctx) {
 		}
 	}
 	if fn := c.Fn("raftstore/store", "validateRegionEpoch"); fn != nil {
-		ne := 0
-		AllInstrs(fn, false, func(in ssa.Instruction) {
-			if bo, ok := in.(*ssa.BinOp); ok && bo.Op == token.NEQ {
-				if isFieldLoad(bo.Y, "manifest.RegionEpoch", "ConfVersion") || isFieldLoad(bo.Y, "manifest.RegionEpoch", "Version") || isFieldOf(bo.Y, "manifest.RegionEpoch") {
-					ne++
+		// decided by order-sign evaluation over (epoch present?, ConfVer ==?, Version ==?):
+		// the request is accepted (nil region error) exactly when the epoch is present and
+		// both components equal the region's; any spelling of the guard gives the same table
+		role := func(v ssa.Value) string {
+			v = Unwrap(v)
+			if len(fn.Params) > 0 && v == fn.Params[0] {
+				return "req"
+			}
+			if k, ok := v.(*ssa.Const); ok && k.IsNil() {
+				return "nil"
+			}
+			if call, ok := v.(*ssa.Call); ok {
+				switch FuncName(StaticFn(call.Common())) {
+				case "(*pb.RegionEpoch).GetConfVer":
+					return "reqConf"
+				case "(*pb.RegionEpoch).GetVersion":
+					return "reqVer"
 				}
 			}
-		})
-		c.Decide(ne == 2, r1, key(fn, "ConfVer!=&&Version!="), fn.Pos(), ne+1, "both epoch components are compared", fmt.Sprintf("expected two inequality tests (ConfVer and Version), found %d", ne))
-		nilRej := false
-		for _, e := range NilEdges(fn, paramSet(fn, 0)) {
-			if returnsNonNilPtr(e.Nil[1]) {
-				nilRej = true
+			if isFieldLoad(v, "manifest.RegionEpoch", "ConfVersion") {
+				return "curConf"
+			}
+			if isFieldLoad(v, "manifest.RegionEpoch", "Version") {
+				return "curVer"
+			}
+			return ""
+		}
+		bad, n := "", 0
+		for _, present := range []int{0, 1} {
+			for _, dc := range []int{-1, 0, 1} {
+				for _, dv := range []int{-1, 0, 1} {
+					signs := map[string]int{}
+					SetSign(signs, "req", "nil", present)
+					SetSign(signs, "reqConf", "curConf", dc)
+					SetSign(signs, "reqVer", "curVer", dv)
+					env := &SignEnv{Role: role, Signs: signs, Depth: 2}
+					wantAccept := present == 1 && dc == 0 && dv == 0
+					for _, r := range env.ReachableReturns(fn) {
+						n++
+						isNil := IsNilConst(RetVal(r, 0))
+						if isNil != wantAccept && bad == "" {
+							bad = fmt.Sprintf("epoch present=%v ConfVer cmp=%d Version cmp=%d: returns %s", present == 1, dc, dv, map[bool]string{true: "no error (accepted)", false: "a region error (rejected)"}[isNil])
+						}
+					}
+				}
+			}
+		}
+		c.Decide(bad == "" && n >= 18, r1, key(fn, "ConfVer!=&&Version!="), fn.Pos(), n+1, "accepted exactly when the epoch is present and both components match (18 orderings evaluated)", "validateRegionEpoch decides wrongly for "+bad)
+		nilRej := true
+		{
+			signs := map[string]int{}
+			SetSign(signs, "req", "nil", 0)
+			env := &SignEnv{Role: role, Signs: signs, Depth: 2}
+			rs := env.ReachableReturns(fn)
+			for _, r := range rs {
+				if IsNilConst(RetVal(r, 0)) {
+					nilRej = false
+				}
+			}
+			if len(rs) == 0 {
+				nilRej = false
 			}
 		}
 		c.Decide(nilRej, r1, key(fn, "nil-epoch→reject"), fn.Pos(), 1, "a request without epoch is rejected", "a request without an epoch is accepted")
@@ -446,29 +494,65 @@ func C25(c *Ctx) {
 	const r3 = "K14.range-operators"
 	c.Rule(r3, "keyInRange is the half-open interval test: key < StartKey rejects, key >= EndKey rejects, empty bounds are unbounded; trimScanResponse keeps a KV only when keyInRange holds and runs before ReadCommand returns a response")
 	if fn := c.Fn("raftstore/store", "keyInRange"); fn != nil {
-		ops := map[string]string{}
-		for _, b := range fn.Blocks {
-			if ifi := ifOf(b); ifi != nil {
-				if bo, ok := ifi.Cond.(*ssa.BinOp); ok {
-					if call, ok := bo.X.(*ssa.Call); ok && Named("bytes.Compare")(call.Common()) {
-						bound := ""
-						if f, ok := call.Call.Args[1].(*ssa.Field); ok {
-							_, bound, _ = FieldOf(f)
-						} else if isFieldLoad(call.Call.Args[1], "manifest.RegionMeta", "StartKey") {
-							bound = "StartKey"
-						} else if isFieldLoad(call.Call.Args[1], "manifest.RegionMeta", "EndKey") {
-							bound = "EndKey"
-						}
-						// true edge returns false?
-						if rejectsFalse(b.Succs[0]) {
-							ops[bound] = bo.Op.String()
+		// decided by order-sign evaluation over (key empty?, start empty?, end empty?,
+		// key vs start, key vs end): 36 combinations, each must give the half-open answer
+		var role func(v ssa.Value) string
+		role = func(v ssa.Value) string {
+			v = Unwrap(v)
+			if len(fn.Params) > 1 && v == fn.Params[1] {
+				return "key"
+			}
+			if isFieldLoad(v, "manifest.RegionMeta", "StartKey") {
+				return "start"
+			}
+			if isFieldLoad(v, "manifest.RegionMeta", "EndKey") {
+				return "end"
+			}
+			if call, ok := v.(*ssa.Call); ok {
+				if bi, ok := call.Call.Value.(*ssa.Builtin); ok && bi.Name() == "len" && len(call.Call.Args) == 1 {
+					if r := role(call.Call.Args[0]); r != "" {
+						return "len(" + r + ")"
+					}
+				}
+			}
+			return ""
+		}
+		lower, upper, n := "", "", 0
+		// (an empty key stands for `unbounded` in scan requests and is not constrained here)
+		for _, ke := range []int{1} {
+			for _, se := range []int{0, 1} {
+				for _, ee := range []int{0, 1} {
+					for _, ks := range []int{-1, 0, 1} {
+						for _, kend := range []int{-1, 0, 1} {
+							signs := map[string]int{}
+							SetSign(signs, "len(key)", "0", ke)
+							SetSign(signs, "len(start)", "0", se)
+							SetSign(signs, "len(end)", "0", ee)
+							SetSign(signs, "key", "start", ks)
+							SetSign(signs, "key", "end", kend)
+							env := &SignEnv{Role: role, Signs: signs, Depth: 2}
+							want := ke == 1 && (se == 0 || ks >= 0) && (ee == 0 || kend < 0)
+							got := env.ReturnValue(fn, 0)
+							n++
+							if (got == True) == want && got != Unknown {
+								continue
+							}
+							d := fmt.Sprintf("non-empty key=%v start set=%v end set=%v key?start=%d key?end=%d: answers %v, the half-open interval says %v", ke == 1, se == 1, ee == 1, ks, kend, triName(got), want)
+							// blame the bound that alone decides this combination
+							if ke == 1 && (ee == 0 || kend < 0) {
+								if lower == "" {
+									lower = d
+								}
+							} else if upper == "" {
+								upper = d
+							}
 						}
 					}
 				}
 			}
 		}
-		c.Decide(ops["StartKey"] == "<", r3, key(fn, "StartKey:<→reject"), fn.Pos(), 1, "key < StartKey is outside", "lower bound operator is "+ops["StartKey"]+" (expected key < StartKey rejects)")
-		c.Decide(ops["EndKey"] == ">=", r3, key(fn, "EndKey:>=→reject"), fn.Pos(), 1, "key >= EndKey is outside (end exclusive)", "upper bound operator is "+ops["EndKey"]+" (expected key >= EndKey rejects)")
+		c.Decide(lower == "", r3, key(fn, "StartKey:<→reject"), fn.Pos(), n+1, "exactly key < StartKey is below the range (36 orderings evaluated)", "keyInRange decides wrongly for "+lower)
+		c.Decide(upper == "", r3, key(fn, "EndKey:>=→reject"), fn.Pos(), n+1, "exactly key >= EndKey is above the range (end exclusive; 72 orderings evaluated)", "keyInRange decides wrongly for "+upper)
 	}
 	if fn := c.Fn("raftstore/store", "Store.ReadCommand"); fn != nil {
 		tr := need(c, r3, fn, false, "trimScanResponse", Named("raftstore/store.trimScanResponse"), 1)
@@ -487,8 +571,39 @@ func C25(c *Ctx) {
 		}
 	}
 	if fn := c.Fn("raftstore/store", "trimScanResponse"); fn != nil {
-		kir := Calls(fn, false, Named("raftstore/store.keyInRange"))
-		c.Decide(len(kir) == 1, r3, key(fn, "filters-by:keyInRange"), fn.Pos(), 1, "kept keys satisfy keyInRange", "trimScanResponse no longer filters by keyInRange")
+		// the filter may live in a helper; wherever it is, every append into the kept slice
+		// lies behind the true edge of keyInRange
+		kirM := Named("raftstore/store.keyInRange")
+		sites := effectSites(c, fn, func(ci ssa.CallInstruction) bool { return kirM(ci.Common()) }, 1)
+		ok := len(sites) >= 1
+		for _, s := range sites {
+			g := fn
+			if !kirM(s.Common()) {
+				g = StaticFn(s.Common())
+			}
+			kir := Calls(g, false, kirM)
+			AllInstrs(g, false, func(in ssa.Instruction) {
+				call, isCall := in.(*ssa.Call)
+				if !isCall {
+					return
+				}
+				if bi, isB := call.Call.Value.(*ssa.Builtin); !isB || bi.Name() != "append" {
+					return
+				}
+				behind := false
+				for _, k := range kir {
+					for e := range boolValueEdges(g, k.Value(), true) {
+						if EdgeDominates(e[0], e[1], in.Block()) {
+							behind = true
+						}
+					}
+				}
+				if !behind {
+					ok = false
+				}
+			})
+		}
+		c.Decide(ok, r3, key(fn, "filters-by:keyInRange"), fn.Pos(), len(sites)+1, "kept keys satisfy keyInRange", "trimScanResponse no longer filters by keyInRange (a KV is kept on a path that is not behind its true edge)")
 	}
 }
 
@@ -718,4 +833,43 @@ func appendThenSync(c *Ctx, r1 string, fn *ssa.Function) {
 		}
 		c.Decide(!bad, r1, key(fn, fmt.Sprintf("AppendRecords[%d]→Sync→success", ai+1)), a.Pos(), n+1, "every success return after the append lies behind wal.Sync()==nil", why+": persisted raft state is still in the WAL manager's user-space buffer when the peer acts on it")
 	}
+}
+
+func triName(t Tri) string {
+	switch t {
+	case True:
+		return "true"
+	case False:
+		return "false"
+	}
+	return "undetermined"
+}
+
+// boolValueEdges returns the CFG edges taken when the boolean value v (used directly, or
+// negated, as an If condition) equals val.
+func boolValueEdges(fn *ssa.Function, v ssa.Value, val bool) edgeSet {
+	out := edgeSet{}
+	for _, b := range fn.Blocks {
+		ifi := ifOf(b)
+		if ifi == nil {
+			continue
+		}
+		cv, pol := ifi.Cond, true
+		for {
+			if u, ok := cv.(*ssa.UnOp); ok && u.Op == token.NOT {
+				cv, pol = u.X, !pol
+				continue
+			}
+			break
+		}
+		if cv != v {
+			continue
+		}
+		if pol == val {
+			out[[2]*ssa.BasicBlock{b, b.Succs[0]}] = true
+		} else {
+			out[[2]*ssa.BasicBlock{b, b.Succs[1]}] = true
+		}
+	}
+	return out
 }
